@@ -27,6 +27,10 @@ def register():
     REGISTRY["C17"] = (p_io.run_c17, "other")
     REGISTRY["C18"] = (p_io.run_c18, "proof")
     REGISTRY["C20"] = (p_io.run_c20, "proof")
+    import p_ctrl
+    REGISTRY["C09"] = (p_ctrl.run_c09, "proof")
+    REGISTRY["C10"] = (p_ctrl.run_c10, "model_checking")
+    REGISTRY["C11"] = (p_ctrl.run_c11, "proof")
     import p_signtype
     REGISTRY["C19"] = (p_signtype.run_c19, "proof")
 
